@@ -5,10 +5,15 @@ use super::super::{
     meta_subscriber::MoveSubscriber,
     meta_container::MoveContainer,
 };
+#[cfg(not(feature = "verif"))]
 use std::{fmt::Debug, sync::atomic::{
     AtomicU32,
     Ordering::{Relaxed, Release},
 }, ptr, cell::UnsafeCell, num::NonZeroU32, pin::Pin, mem::ManuallyDrop};
+#[cfg(feature = "verif")]
+use std::{fmt::Debug, sync::atomic::Ordering::{Relaxed, Release}, ptr, cell::UnsafeCell, num::NonZeroU32, pin::Pin, mem::ManuallyDrop};
+#[cfg(feature = "verif")]
+use crate::verif::AtomicU32;
 use crossbeam::utils::CachePadded;
 
 
@@ -49,6 +54,17 @@ AtomicMove<SlotType, BUFFER_SIZE> {
         // if !BUFFER_SIZE.is_power_of_two() {
         //     panic!("FullSyncMeta: BUFFER_SIZE must be a power of 2, but {BUFFER_SIZE} was provided.");
         // }
+        #[cfg(feature = "verif")]
+        if crate::verif::sequence_origin() != 0 {
+            let origin = crate::verif::sequence_origin();
+            return Self {
+                head:                 CachePadded::new(AtomicU32::new(origin)),
+                tail:                 CachePadded::new(AtomicU32::new(origin)),
+                dequeuer_head:        CachePadded::new(AtomicU32::new(origin)),
+                enqueuer_tail:        CachePadded::new(AtomicU32::new(origin)),
+                buffer:               UnsafeCell::new(Box::pin([0; BUFFER_SIZE].map(|_| ManuallyDrop::new(slot_initializer())))),
+            }
+        }
         Self {
             head:                 CachePadded::new(AtomicU32::new(0)),
             tail:                 CachePadded::new(AtomicU32::new(0)),
@@ -68,6 +84,8 @@ AtomicMove<SlotType, BUFFER_SIZE> {
     fn publish_movable(&self, item: SlotType) -> (Option<NonZeroU32>, Option<SlotType>) {
         match self.leak_slot_internal(|| false) {
             Some( (slot_ref, slot_id, len_before) ) => {
+                #[cfg(feature = "verif")]
+                crate::verif::yield_point("slot_write", slot_ref as *const SlotType as usize);
                 unsafe { ptr::write(slot_ref, item); }
                 self.publish_leaked_internal(slot_id);
                 (NonZeroU32::new(len_before+1), None)
@@ -88,6 +106,8 @@ AtomicMove<SlotType, BUFFER_SIZE> {
 
         match self.leak_slot_internal(report_full_fn) {
             Some( (slot_ref, slot_id, len_before) ) => {
+                #[cfg(feature = "verif")]
+                crate::verif::yield_point("slot_write", slot_ref as *const SlotType as usize);
                 setter_fn(slot_ref);
                 self.publish_leaked_internal(slot_id);
                 report_len_after_enqueueing_fn(len_before+1);
@@ -130,6 +150,8 @@ AtomicMove<SlotType, BUFFER_SIZE> {
     fn consume_movable(&self) -> Option<SlotType> {
         match self.consume_leaking_internal(|| false) {
             Some( (slot_ref, slot_id, _len_before) ) => {
+                #[cfg(feature = "verif")]
+                crate::verif::yield_point("slot_read", slot_ref as *const SlotType as usize);
                 let item = unsafe { Some(ptr::read(slot_ref)) };
                 self.release_leaked_internal(slot_id);
                 item
